@@ -159,7 +159,9 @@ def create_database(
     file_hash_path = _get_file_hash_path(cmd.zettel_dir)
     file_to_hash = _get_file_hash_map(cmd.zettel_dir)
     _write_file_hash_to_disk(file_hash_path, file_to_hash)
-    error_file_whitelist.write_text("\n".join(sorted(error_files)))
+    c.atomic_write_text(
+        error_file_whitelist, "\n".join(sorted(error_files))
+    )
     session.commit()
 
 
@@ -269,7 +271,9 @@ def reindex_database(
     for zorg_page_name in pages_awaiting_write_back:
         file_to_hash.pop(zorg_page_name, None)
     _write_file_hash_to_disk(file_hash_path, file_to_hash)
-    error_file_whitelist.write_text("\n".join(sorted(error_files)))
+    c.atomic_write_text(
+        error_file_whitelist, "\n".join(sorted(error_files))
+    )
     session.commit()
 
 
@@ -353,8 +357,10 @@ def _write_file_hash_to_disk(
     file_hash_path: Path, file_to_hash: dict[str, str]
 ) -> None:
     _LOGGER.debug("Writing hash map to disk", file=str(file_hash_path))
-    with file_hash_path.open("w") as f:
-        json.dump(dict(sorted(file_to_hash.items())), f, indent=4)
+    c.atomic_write_text(
+        file_hash_path,
+        json.dumps(dict(sorted(file_to_hash.items())), indent=4),
+    )
 
 
 def _add_zid_to_line(zid: str, line: str) -> str:
@@ -502,7 +508,7 @@ def _update_zo_file(
         zorg_page=str(zo_path),
         notes_to_update=len(notes_to_update),
     )
-    zo_path.write_text("\n".join(zlines))
+    c.atomic_write_text(zo_path, "\n".join(zlines))
 
     if not record_hash:
         # Another rewrite of this page is still pending. Until it is done the
